@@ -45,6 +45,8 @@ def gen(rng, k):
             ops.append(dict(kind='write', values=vals, size=size, timeout=3, gap=0.4, **same))
     sc = dict(kind='dm14', ops=ops, seedkey=seedkey, seeds=[rng.choice([0x0001, 0xFFFE, 0xA55A, rng.randint(1, 0xFFFE)]) for _ in range(10)],
               lat=[rng.choice([1, 500, 5000])], horizon=1000 + len(ops) * 8_000_000, max_cmdt=rng.choice([1, 3, 8, 255]))
+    # the two ECUs need not be configured alike: the window of a multi-packet DM16 is negotiated between them
+    sc['max_cmdt_server'] = rng.choice([1, 2, 3, 8, 255])
     if len(ops) >= 2 and rng.random() < 0.4:
         # back-to-back requests under a pre-emptive schedule: the calling thread is woken by the result and issues its next
         # request before the receive path of the previous transaction has finished
